@@ -192,14 +192,23 @@ def impl(case):
         for name, ts in case['dyn']:
             yp.assert_fact(yp.atom(name), build_fact(yp, ts))
         log = []
+        def register(spec):
+            rows = [row_terms(r) for r in facts.get((spec['name'], spec['arity']), [])]
+            f, ar = make_native(yp, E, spec, rows, exc_obj, log)
+            if ar is None:
+                yp.register_function(spec['name'], f)
+            else:
+                yp.register_function(spec['name'], f, arity=ar)
         if which == 'A':
-            for spec in case['native']:
-                rows = [row_terms(r) for r in facts.get((spec['name'], spec['arity']), [])]
-                f, ar = make_native(yp, E, spec, rows, exc_obj, log)
-                if ar is None:
-                    yp.register_function(spec['name'], f)
-                else:
-                    yp.register_function(spec['name'], f, arity=ar)
+            pre = case.get('pre')
+            if pre is not None:
+                # a first round of queries while only some (or none) of the Python predicates are registered
+                for i in pre:
+                    register(case['native'][i])
+                res['A0'] = run_queries(yp, E, case, exc_obj)
+            for i, spec in enumerate(case['native']):
+                if pre is None or i not in pre:
+                    register(spec)
         res[which] = run_queries(yp, E, case, exc_obj)
         if which == 'A':
             res['calls'] = len(log)
@@ -213,12 +222,17 @@ def g_frow(ts, nv):
     return '{| r_vals := %s; r_nv := %s |}' % (g_list([g_term(t) for t in ts]), g_nat(nv))
 
 def model_expr(case):
+    if case.get('pre') is None:
+        return '(OL [%s])' % model_expr_phase(case, case['native'])
+    return '(OL [%s; %s])' % (model_expr_phase(case, [case['native'][i] for i in case['pre']]), model_expr_phase(case, case['native']))
+
+def model_expr_phase(case, natives):
     num = numbered(case)
     facts = fact_preds(num)
     p_full = ast_io.g_program(num)
     p_rest = ast_io.g_program(progs.number_anons(rest_clauses(case)))
     nats = []
-    for spec in case['native']:
+    for spec in natives:
         rows = [row_terms(r) for r in facts.get((spec['name'], spec['arity']), [])]
         vals = [{'false': False, 'true': True, 'mixed': i % 2 == 1}[spec['yield']] for i in range(len(rows))]
         style = 'NVariadic' if spec['style'] == 'variadic' else '(NFixed %s)' % g_nat(spec['arity'])
@@ -259,20 +273,42 @@ def qtext(q):
 def compare(case, io, mo):
     if 'rejected' in io:
         return 'the compiler rejected a generated program: %s %s' % (io['rejected'], io.get('msg'))
-    if mo and mo[0] == 'stuck':
+    if any(m and m[0] == 'stuck' for m in mo):
         return 'model compiler stuck'
-    raising = any(s.get('raise') is not None for s in case['native'])
+    if case.get('pre') is not None:
+        r = compare_phase(case, io['A0'], None, mo[0], [case['native'][i] for i in case['pre']])
+        if r:
+            return 'first round (Python predicates %s registered): %s' % ([case['native'][i]['name'] for i in case['pre']], r)
+    return compare_phase(case, io['A'], io['B'], mo[-1], case['native'])
+
+def compare_phase(case, ioA, ioB, mo, natives):
+    raising = any(s.get('raise') is not None for s in natives)
     # the model names fresh cells by a counter per search path; terms of different answers that findall/3 collects in one
     # list can therefore share a cell name where the engine has distinct Variables: with findall in the program the model
     # is compared up to the identity of unbound variables (engine A against engine B stays exact)
     fa = uses_findall(case)
-    for q, a0, b0, m in zip(case['queries'], io['A'], io['B'], mo):
+    final = ioB is not None
+    for q, a0, b0, m in zip(case['queries'], ioA, ioB if final else ioA, mo):
         mn, mc, mnr = view(m[0]), view(m[1]), view(m[3])
         a, b = a0, b0
         if fa:
             mn, mc, mnr = [dict(v, answers=anon(v['answers'])) for v in (mn, mc, mnr)]
             a, b = dict(a0, answers=anon(a0['answers'])), dict(b0, answers=anon(b0['answers']))
         t = qtext(q)
+        if not final:
+            # only the engine with the Python predicates registered so far against its model
+            if mnr['err']:
+                k = min(len(a['answers']), len(mn['answers']))
+                if a['answers'][:k] != mn['answers'][:k]:
+                    return 'query %s: differs from the model before the model\'s depth limit' % t
+                continue
+            if mn['err']:
+                if not a['end'].startswith('raised') or a['answers'] != mn['answers'] or a['count'] != mn['count']:
+                    return 'query %s: the model ends with the exception of the Python predicate after %d answers, the engine %s after %d' % (t, mn['count'], a['end'], a['count'])
+                continue
+            if a['end'] not in ('done', 'cap') or a['answers'] != mn['answers'] or (a['end'] == 'done' and a['count'] != mn['count']):
+                return 'query %s: engine differs from the model (%s after %d answers, model %d)' % (t, a['end'], a['count'], mn['count'])
+            continue
         if mc['err'] or mnr['err']:
             # call depth of the model exhausted / cyclic unification: outside the domain; only prefixes are comparable
             for x, y, what in ((a, mn, 'Python-predicate engine'), (b, mc, 'compiled engine')):
@@ -324,6 +360,9 @@ def oracle(case, io):
         if not raising and a['end'] in ('done', 'cap') and b['end'] in ('done', 'cap'):
             if a['answers'] != b['answers'] or a['count'] != b['count']:
                 return 'query %s: Python predicates and compiled predicates give different answers (%d vs %d)' % (t, a['count'], b['count'])
+    for q, a in zip(case['queries'], io.get('A0') or []):
+        if a['leftover'] or a['leaked']:
+            return 'query %s (first round): variables still bound after the enumeration ended (%s)' % (qtext(q), a['end'])
     bad = [x for x in io.get('argtypes', []) if x not in ('Atom', 'Variable', 'Functor', 'int', 'str')]
     if bad:
         return 'a Python predicate received arguments that are not engine terms: %s' % bad
@@ -455,7 +494,11 @@ def gen(rng, tier):
             if s and s not in subsets:
                 subsets.append(s)
         for s in subsets:
-            cases.append({'clauses': clauses, 'queries': queries, 'dyn': dt, 'native': [native_spec(rng, k[0], k[1]) for k in s]})
+            c = {'clauses': clauses, 'queries': queries, 'dyn': dt, 'native': [native_spec(rng, k[0], k[1]) for k in s]}
+            if rng.random() < 0.45:
+                # queries are also asked before all Python predicates are registered (none, or some of them)
+                c['pre'] = [i for i in range(len(s)) if rng.random() < 0.35]
+            cases.append(c)
         if rng.random() < 0.6:
             s = subsets[-1]
             specs = [native_spec(rng, k[0], k[1]) for k in s]
@@ -493,6 +536,9 @@ def builtin_corpus():
         for style in ('inferred', 'variadic'):
             L.append({'clauses': prog, 'queries': queries, 'dyn': dyn0 if j % 2 else [],
                       'native': [{'name': 'q', 'arity': 1, 'style': style, 'yield': 'false', 'form': 'arrays', 'raise': j}]})
+            L.append({'clauses': prog, 'queries': queries, 'dyn': dyn0 if j % 2 else [], 'pre': [] if j < 2 else [1],
+                      'native': [{'name': 'q', 'arity': 1, 'style': style, 'yield': 'true', 'form': 'nested', 'raise': None},
+                                 {'name': 'e', 'arity': 2, 'style': ['explicit', 'variadic'][j % 2], 'yield': 'mixed', 'form': 'arrays', 'raise': None}]})
             L.append({'clauses': prog, 'queries': queries, 'dyn': [],
                       'native': [{'name': 'e', 'arity': 2, 'style': style, 'yield': 'true', 'form': 'nested', 'raise': j},
                                  {'name': 'q', 'arity': 1, 'style': 'explicit', 'yield': 'mixed', 'form': 'arrays', 'raise': None}]})
@@ -511,7 +557,7 @@ def nontrivial(case, io):
     return bool(big) and bool(cs & {'cut', 'not', 'if', 'call:call', 'call:once', 'call:findall'})
 
 def distribution(cases, obs):
-    d = {'style': {}, 'yield': {}, 'form': {}, 'natives_per_case': {}, 'raising': 0, 'with_dynamic_facts': 0, 'ends_A': {},
+    d = {'style': {}, 'yield': {}, 'form': {}, 'natives_per_case': {}, 'queried_before_registration': sum(1 for c in cases if c.get('pre') is not None), 'raising': 0, 'with_dynamic_facts': 0, 'ends_A': {},
          'python_predicate_calls': 0, 'constructs': {}}
     for c, o in zip(cases, obs):
         for s in c['native']:
@@ -541,7 +587,7 @@ def shrink(case):
     if len(case['queries']) > 1:
         for i in range(len(case['queries'])):
             yield dict(case, queries=[case['queries'][i]])
-    if len(case['native']) > 1:
+    if len(case['native']) > 1 and case.get('pre') is None:
         for i in range(len(case['native'])):
             yield dict(case, native=case['native'][:i] + case['native'][i + 1:])
     for i in range(len(case['dyn'])):
